@@ -329,6 +329,43 @@ theorem handler_meets_spec (k : Kind) (hk : k ≠ .oauth2) (cb ti raw : Bytes)
     · simp only [if_neg h1, if_neg h2]
       simp [hobsOf, terminal]
 
+/-- **Option values are escaped, once**: the page a UI middleware serves carries the title option (the
+default title when none is given) — stream `M`'s title clause holds of the model. -/
+theorem ui_mw_page_title (k : Kind) (o : Opts) (next : Option Handler) (r : Req) (p : Page)
+    (hnext : ∀ n, next = some n → ∀ q, n r ≠ .page q)
+    (h : uiMW k o next r = .page p) : p.opts.title = wantedTitle o.title := by
+  unfold uiMW serveUI at h
+  by_cases hc : clean r.path = uiDocPath k (ensureDefaults k o)
+  · simp only [if_pos hc] at h
+    cases h
+    cases k <;> simp [ensureDefaults, commonDefaults, wantedTitle]
+  · simp only [if_neg hc] at h
+    cases next with
+    | none => simp at h
+    | some n => exact absurd h (hnext n rfl p)
+
+example : (ensureDefaults .redoc { title := [60, 98, 62] }).title = wantedTitle [60, 98, 62] := by decide
+
+theorem handlerUIOpts_title (k : Kind) (cb ti : Bytes) (opts : List UIOption) :
+    (handlerUIOpts k cb ti opts).title = handlerTitle cb ti opts := by
+  cases k <;> simp [handlerUIOpts, handlerTitle, ensureDefaults, commonDefaults, toFlavour, wantedTitle]
+
+/-- The composed handler's page shows the API's title, or the title option: stream `H`'s title clause
+holds of the model. -/
+theorem handler_meets_title_spec (k : Kind) (cb ti raw : Bytes) (opts : List UIOption) (r : Req) :
+    specHandlerTitle cb ti opts (hobsOf raw (apiHandler k cb ti raw opts terminal r)) = true := by
+  have hsu : (wSpec == wUI) = false := by decide
+  have hnu : (wNext == wUI) = false := by decide
+  unfold specHandlerTitle
+  rw [apiHandler_unfold]
+  by_cases h1 : clean r.path = handlerSpecPath urlPath cb ti opts
+  · simp [if_pos h1, hobsOf, hsu]
+  · by_cases h2 : clean r.path = handlerUIPath k cb ti opts
+    · simp only [if_neg h1, if_pos h2]
+      simp [hobsOf, handlerUIOpts_title]
+    · simp only [if_neg h1, if_neg h2]
+      simp [hobsOf, terminal, hnu]
+
 /-! ## What `url.Parse` does with a plain absolute path -/
 
 /-- bytes that `url.Parse` neither splits at, decodes nor rejects -/
